@@ -277,8 +277,12 @@ class Roles:
                         if any(atom_has_field(l[5], "requesters", "TargetActorHelper") for l in for_loops(x)):
                             return True
                 return False
-            for (b, sites) in self.bodies_constructing("ActorInputMessage", "Ok"):
-                if b in self.helper_methods() and fans_out(b):
+            builders = [b for (b, sites) in self.bodies_constructing("ActorInputMessage", "Ok")]
+            # a constructor helper (`fn ok_message(..) -> ActorInputMessage`): the bodies that ask it for the message build Ok as well
+            ctor_names = {b.name for b in builders if not b.coroutine and b.kind in ("Fn", "AssocFn") and "ActorInputMessage" in b.ret}
+            via = [x for x in self.helper_methods() if any(callee_base(t) in ctor_names for _, t in x.calls()) and x.name not in ctor_names]
+            for b in builders + [x for x in via if x not in builders]:
+                if b in self.helper_methods() and b.name not in ctor_names and fans_out(b):
                     out.append(b)
             return out
         return self._memo("succ_notifiers", go)
@@ -489,7 +493,10 @@ class Roles:
             for b in self.f.code_bodies():
                 if b.argc == 2 and b.ret == "bool" and b.kind in ("Fn", "AssocFn") and "Path" in b.locals[1]["ty"] and "BTreeSet<std::string::String>" in b.locals[2]["ty"]:
                     out.append(b)
-            return out
+            # a function of the same shape that merely combines the predicate with something else (`is_file() && matches_extensions(..)`) is a user
+            # of the predicate, not a second predicate: keep the innermost ones
+            names = {b.name for b in out}
+            return [b for b in out if not ((self.f.cg.reach([b.name], cross_spawn=False) - {b.name}) & names)]
         return self._memo("ext_pred", go)
 
     def notify_callbacks(self):
